@@ -3,6 +3,7 @@ import DigModel.Proofs.ApiLemmas
 import DigModel.Proofs.Shape
 import DigModel.Proofs.ProvApi
 import DigModel.Proofs.JustApi
+import DigModel.Proofs.RegOKApi
 /-
   C01 — Injected values are exactly the registered constructors' outputs (resolution rule).
 
@@ -31,9 +32,10 @@ import DigModel.Proofs.JustApi
     declared type).  Together with the resolution rule above (which says *which* scope's cache or providers
     answer a request) this is "the value returned by the constructor registered for that type and name in
     the nearest enclosing scope".
+    `C01_cached_value_from_the_registered_provider` adds (invariant `RegInv`): that constructor is listed in
+    `providers[S][k]` and is the only constructor listed there that declares `k`.
   Still carried by the correspondence check only: the same justification for value-group members and decorated
-  values (their provenance is `C01_args_from_successful_executions`), and that `n` is listed in
-  `providers[S][k]` (it is by construction of `Provide`).
+  values (their provenance is `C01_args_from_successful_executions`).
 -/
 namespace Dig.C01
 
@@ -184,6 +186,20 @@ theorem C01_cached_value_justified (p : Program) (S : Nat) (k : Key) (v : Val)
           Event.exit (.ctor n) ret.f ret.x .ok ∈ (runProgram p).1.hist) :=
   just_program p S k v h
 
+theorem C01_cached_value_from_the_registered_provider (p : Program) (S : Nat) (k : Key) (v : Val)
+    (h : aget ((runProgram p).1.scope S).values k = some v) :
+    ∃ n, n ∈ agetL ((runProgram p).1.scope S).providers k ∧ k ∈ ctorKeys (runProgram p).1 n ∧
+      ((runProgram p).1.ctor n).called = true ∧
+      (∀ n', n' ∈ agetL ((runProgram p).1.scope S).providers k → k ∈ ctorKeys (runProgram p).1 n' → n' = n) ∧
+      ∃ (slot decl : Nat) (ret : Ret), (k, slot, decl) ∈ slotLeaves ((runProgram p).1.ctor n).results ∧ v = ret.val p.types slot decl ∧
+        (ret.dry = false → ret.f = ((runProgram p).1.ctor n).fn.id ∧
+          Event.exit (.ctor n) ret.f ret.x .ok ∈ (runProgram p).1.hist) := by
+  obtain ⟨n, slot, decl, hn, hs, hc, hm, ret, hv, hr⟩ := just_program p S k v h
+  have hk : k ∈ ctorKeys (runProgram p).1 n := List.mem_map.mpr ⟨(k, slot, decl), hm, rfl⟩
+  have hreg := (regInv_program p).regOK n hn k hk
+  rw [hs] at hreg
+  exact ⟨n, hreg, hk, hc, fun n' h1 h2 => (regInv_program p).uniq S k n' n h1 hreg h2 hk, slot, decl, ret, hm, hv, hr⟩
+
 /-- non-vacuity (a test): the leaves of a result object with a named field and an As interface -/
 example : slotLeaves [.err, .val (.object 9 [.single 0 5 5 "n1" [], .single 1 6 21 "" [22]])] =
     [({ ty := 5, name := "n1", group := "" }, 0, 5), ({ ty := 21, name := "", group := "" }, 1, 6),
@@ -191,6 +207,7 @@ example : slotLeaves [.err, .val (.object 9 [.single 0 5 5 "n1" [], .single 1 6 
 
 #print axioms C01_decorator_wins
 #print axioms C01_cached_value_justified
+#print axioms C01_cached_value_from_the_registered_provider
 #print axioms C01_args_from_successful_executions
 #print axioms C01_decorated_cache
 #print axioms C01_cached_value
